@@ -376,19 +376,42 @@ func (c *Cluster) StartNode(i int) error {
 	n.In = n.Srv.VerifInternals()
 	var joinErr error
 	if !c.Guard(40*time.Second, func() { joinErr = n.Srv.JoinCluster() }) {
-		diag := ""
-		for _, m := range c.Nodes {
-			if m.In != nil && m.In.ZeroGroup != nil {
-				st := m.In.ZeroGroup.VerifStatus()
-				diag += fmt.Sprintf(" | node %d dead=%v book=%v zero{term=%d vote=%d lead=%d commit=%d applied=%d %s progress=%d}", m.Id, m.Dead(), m.In.ClusterConn.Nodes(), st.Term, st.Vote, st.Lead, st.Commit, st.Applied, st.RaftState, len(st.Progress))
-			}
-		}
-		return fmt.Errorf("join handshake did not return within 40 s%s", diag)
+		return fmt.Errorf("join handshake did not return within 40 s%s", c.Diag())
 	}
 	if joinErr != nil {
 		return fmt.Errorf("join: %v", joinErr)
 	}
 	return nil
+}
+
+// Diag describes every node's membership view and zero-group state. Each
+// read is guarded: on a wedged node the address book's lock may never be free.
+func (c *Cluster) Diag() string {
+	diag := ""
+	for _, m := range c.Nodes {
+		in := m.In
+		if in == nil || in.ZeroGroup == nil {
+			continue
+		}
+		line := fmt.Sprintf(" | node %d dead=%v", m.Id, m.Dead())
+		var bk map[uint64]string
+		if c.Guard(2*time.Second, func() { bk = in.ClusterConn.Nodes() }) {
+			line += fmt.Sprintf(" book=%v", bk)
+		} else {
+			line += " book=<address lock not available>"
+		}
+		var zs string
+		if c.Guard(2*time.Second, func() {
+			st := in.ZeroGroup.VerifStatus()
+			zs = fmt.Sprintf(" zero{term=%d vote=%d lead=%d commit=%d applied=%d %s progress=%d}", st.Term, st.Vote, st.Lead, st.Commit, st.Applied, st.RaftState, len(st.Progress))
+		}) {
+			line += zs
+		} else {
+			line += " zero{status not available}"
+		}
+		diag += line
+	}
+	return diag
 }
 
 // Start starts every node in order.
@@ -523,13 +546,14 @@ func (c *Cluster) Teardown(i int) {
 	c.mu.Unlock()
 	if n.Srv != nil && n.In != nil {
 		done := make(chan struct{})
+		srv, in := n.Srv, n.In // the fields are cleared below even if Stop never returns
 		go func() {
 			defer close(done)
 			defer func() { recover() }()
-			if n.In.GrpcServer != nil {
-				n.In.GrpcServer.Stop() // hard stop: do not wait for handlers
+			if in.GrpcServer != nil {
+				in.GrpcServer.Stop() // hard stop: do not wait for handlers
 			}
-			n.Srv.Stop()
+			srv.Stop()
 		}()
 		select {
 		case <-done:
